@@ -59,8 +59,9 @@ Proof.
 Qed.
 Example C11_example_files_ok : files_ok ex_msg.
 Proof.
-  unfold files_ok, ex_msg; cbn [m_embeds m_attach].
-  split; [repeat constructor|].
-  constructor; [|constructor]. unfold file_enc_ok, ex_file; cbn [f_enc]. unfold enc_canon.
-  split; [vm_compute; discriminate|vm_compute; reflexivity].
+  unfold files_ok, ex_msg; cbn [m_embeds m_attach m_wenc].
+  split; [left; reflexivity|].
+  split; (constructor; [|constructor]); unfold file_enc_ok, ex_file; cbn [f_enc f_name f_hdr];
+  (split; [|split; [reflexivity|intros v H; vm_compute in H; discriminate]]); try exact I.
+  unfold enc_canon. split; [vm_compute; discriminate|vm_compute; reflexivity].
 Qed.
